@@ -14,6 +14,9 @@ def select(t, c):
     step, prop, name, detail = c
     if prop == "ALL":
         return None
+    if prop == "C11" and name.startswith("task-"):      # the sparse (MOSEK) encoding of the same items, on the stand-in
+        o = t["solves"][step - 1]
+        return "C05|mosek:%s" % name.split(":")[0], "solve %d %s: %s (detail %s)" % (step, sc.solvestr(o), name, detail)
     if prop != "C05":
         return None
     o = t["solves"][step - 1]
@@ -21,9 +24,24 @@ def select(t, c):
     return sig, "solve %d %s: %s (detail %s)" % (step, sc.solvestr(o), name, detail)
 
 
+def sparse_twin(p):
+    """every third single-solve program is also formulated through the real MosekWrapper on the stand-in mosek module:
+    its recorded Task rows must denote the same items (sparse lower-triangular encoding)"""
+    sparse_twin.n = getattr(sparse_twin, "n", 0) + 1
+    if len(p["solves"]) == 1 and p["solves"][0]["edit"] == "none" and sparse_twin.n % 3 == 0:
+        o = dict(p["solves"][0])
+        return dict(prog=p["prog"], solves=[dict(o, wrapper="cvxpy"), dict(o, wrapper="mosek", edit="twin")])
+    return p
+
+
 def run(tier):
-    return sc.run_family(PID, tier, RULE, select, cap=dict(quick=600, thorough=5000))
+    import os
+    from core import VERIF
+    return sc.run_family(PID, tier, RULE, select, cap=dict(quick=600, thorough=5000), transform=sparse_twin,
+                         extra_paths=[os.path.join(VERIF, "harness", "fake")])
 
 
 def replay(path):
-    return sc.replay_family(PID, path, select)
+    import os
+    from core import VERIF
+    return sc.replay_family(PID, path, select, extra_paths=[os.path.join(VERIF, "harness", "fake")])
